@@ -104,8 +104,10 @@ func (i *interpreter) scheduleNext(cur *thread, park bool) {
 		}
 		return
 	}
+	// non-preemptive switches are deterministic (FIFO); only preemptions at
+	// visible operations are decisions of the path (CHESS-style bounding).
 	k := 0
-	if i.explore && len(i.runq) > 1 {
+	if i.explore && i.freeSched && len(i.runq) > 1 {
 		conds := make([]*Term, len(i.runq))
 		k = i.decide("sched", conds)
 	}
@@ -120,7 +122,7 @@ func (i *interpreter) scheduleNext(cur *thread, park bool) {
 // visible marks a visible operation: with schedule exploration enabled and
 // preemption budget left, the path may switch to another runnable thread here.
 func (i *interpreter) visible(fr *frame, what string) {
-	if !i.explore || i.preempts <= 0 || len(i.runq) == 0 || i.cur == nil {
+	if !i.explore || i.preempts <= 0 || len(i.runq) == 0 || i.cur == nil || i.atomic > 0 {
 		return
 	}
 	conds := make([]*Term, 1+len(i.runq))
